@@ -86,7 +86,15 @@ def gen_case(seed, tier):
         if rng.random() < 0.3 and nops:
             txn["hook"] = {"which": rng.choice(["put", "delrds", "delname"]), "nth": rng.randrange(1, 4)}
         txns.append(txn)
-    return {"prop": PROP, "seed": seed, "base": base, "txns": txns, "configs": "all", "aborts": "all"}
+    return {
+        "prop": PROP,
+        "seed": seed,
+        "base": base,
+        "txns": txns,
+        "configs": "all",
+        "aborts": "all",
+        "load_replacement": rng.random() < 0.7,
+    }
 
 
 # ---------------------------------------------------------------------------
@@ -396,7 +404,7 @@ def _run_read_txn(ctx, b, m, t):
 
 def _run_config(ctx, case, kind, relativize):
     b = Z.Bench(kind, relativize)
-    m = Z.load_bench(b, case["base"])
+    m = Z.load_bench(b, case["base"], replacement=case.get("load_replacement", True))
     _zone_equals(ctx, b, m.snapshot(), "after initial load", "C10:commit-mismatch")
     for ti, t in enumerate(case["txns"]):
         if t["kind"] == "r":
@@ -433,7 +441,7 @@ def run_case(case, keep_log=False):
         if len(vals) > 1:
             raise Violation("C10:configs-differ", f"final content differs between configurations: {[(k, hash(v) & 0xffff) for k, v in finals.items()]}")
     except Violation as v:
-        res.violation = (v.cls, v.detail)
+        res.violation = (v.cls if ":" in v.cls else "C10:" + v.cls, v.detail)
     except Z.Planned as e:
         res.violation = ("C10:planned-exception-leaked", str(e))
     log.add("final", sorted(hash(v) & 0xFFFFFFFF for v in finals.values()))
